@@ -50,7 +50,7 @@ Digest(tag, off, n) == [j \in 1..Min(4, n) |-> PicByte(tag, off + j - 1)] \o [j 
 
 JLine(j) == Line(j.t, j.k, j.v, j.a, j.b)
 JCmds(cs) == [k \in 1..Len(cs) |-> Cmd(cs[k].id, cs[k].fail, cs[k].pad)]
-JRes(r) == Res(r.t, r.frames, r.code, r.idx, r.cmd, r.msg)
+JRes(r) == [Res(r.t, r.frames, r.code, r.idx, r.cmd, r.msg) EXCEPT !.kind = r.kind]
 PairSet(s) == {s[k] : k \in 1..Len(s)}
 
 \* conformance of the Rust simulator with the server model: the k-th srv_out record is the k-th reply of the model
